@@ -75,6 +75,11 @@ class Automaton:
     def on_return(self, q, f, bi, kind, env):
         return q
 
+    def on_edge(self, q, f, bi, t, value, target, env):
+        """Called for every outgoing edge of a switchInt (value is the matched integer, or None for `otherwise`).
+        Return the state to continue with, or 'PRUNE' when the edge is infeasible for this state."""
+        return q
+
 
 class Env:
     """What is known about enum-typed locals / discriminant temporaries on the current path."""
@@ -193,7 +198,9 @@ class PathFlow:
                     tg = [x[1] for x in t['targets'] if x[0] == val]
                     tgts = tg[:1] if tg else [t['otherwise']]
                     for q1 in qs2:
-                        outs.append((tgts[0], q1, e2))
+                        q1e = au.on_edge(q1, f, bi, t, val if tg else None, tgts[0], env)
+                        if q1e != 'PRUNE':
+                            outs.append((tgts[0], q1e, e2))
                 else:
                     for (v, tb) in t['targets']:
                         e3 = e2.copy()
@@ -202,13 +209,17 @@ class PathFlow:
                         if src is not None:
                             e3.known[src] = v
                         for q1 in qs2:
-                            outs.append((tb, q1, e3))
+                            q1e = au.on_edge(q1, f, bi, t, v, tb, env)
+                            if q1e != 'PRUNE':
+                                outs.append((tb, q1e, e3))
                     e4 = e2
                     if src is not None and len(t['targets']) == 1 and t['targets'][0][0] in (0, 1):
                         e4 = e2.copy()
                         e4.known[src] = 1 - t['targets'][0][0]
                     for q1 in qs2:
-                        outs.append((t['otherwise'], q1, e4))
+                        q1e = au.on_edge(q1, f, bi, t, None, t['otherwise'], env)
+                        if q1e != 'PRUNE':
+                            outs.append((t['otherwise'], q1e, e4))
             elif k == 'return':
                 kind = exit_kind(f, env.known)
                 kinds = [kind] if kind is not None else all_exit_kinds(f)
@@ -324,6 +335,12 @@ class PathFlow:
                 outcomes = [(q, k0)]
             elif 'FromResidual' in path and path.endswith('::from_residual'):
                 outcomes = [(q, 1 if dty == RESULT else 0 if dty == OPTION else None)]
+            elif path in ('std::result::Result::<T, E>::unwrap', 'std::result::Result::<T, E>::expect') and k0 == 1:
+                outcomes = []   # unwrap of a known Err: the path ends in a panic
+            elif path in ('std::option::Option::<T>::unwrap', 'std::option::Option::<T>::expect') and k0 == 0:
+                outcomes = []
+            elif path.startswith('core::panicking::') or path.startswith('std::rt::begin_panic'):
+                outcomes = []
             elif path in ('std::option::Option::<T>::ok_or', 'std::option::Option::<T>::ok_or_else'):
                 outcomes = [(q, None if k0 is None else (0 if k0 == 1 else 1))]
             elif path in ('std::result::Result::<T, E>::map', 'std::result::Result::<T, E>::map_err', 'std::option::Option::<T>::map',
